@@ -16,6 +16,8 @@
    not only the next one.  Outside the class the property is FALSE on the code:
    C08a_refuted_outside_K1, C08b_refuted_outside_K2 (recorded findings 8.3, 8.4
    of DESIGN.md, open entries of KNOWN_FINDINGS.txt). *)
+From TM Require BuiltinFacts Json RustOps Convert.
+From TMGen Require Builtins.
 From TM Require Import Base Mapper Monitors Trace MapperInv MapperProps Absorb MapperAbsorb Findings.
 
 (* (a) no press of a key other than the one that triggered it fires a mapping
@@ -117,6 +119,15 @@ Proof.
   vm_compute. repeat split; try reflexivity; try (left; reflexivity); auto.
 Qed.
 Print Assumptions C08b_refuted_outside_K2.
+
+(* The five built-in layouts are inside the class (with the standard eight
+   modifiers): the recorded findings do not concern the shipped layouts. *)
+Theorem C08_builtin_layouts_in_class :
+  forall (n : String.string) (j : Json.json), In (n, j) TMGen.Builtins.builtin_layouts ->
+    exists L, Convert.load j = RustOps.Ok L /\ for_layout_ok L = true
+              /\ K1 BuiltinFacts.spec_is_action L = true /\ K2 BuiltinFacts.spec_is_action L = true.
+Proof. exact BuiltinFacts.builtins_ok. Qed.
+Print Assumptions C08_builtin_layouts_in_class.
 
 (* Non-vacuity inside the class: [LEFTSHIFT,A]->[X] abs[LEFTSHIFT], [LEFTSHIFT,B]->[Y];
    LEFTSHIFT A down/up: LEFTSHIFT is absorbed (a victim for B); B passes through
